@@ -1,10 +1,12 @@
 package main
 
 import (
+	"fmt"
 	"go/ast"
 	"go/constant"
 	"go/token"
 	"go/types"
+	"os"
 	"regexp"
 	"strconv"
 	"strings"
@@ -362,14 +364,13 @@ func (g *guardCtx) lenAtLeast(a string, n int64, site ast.Node, stack []ast.Node
 
 // callersLenAtLeast: `a` is a parameter of the enclosing unexported function, and at every call of that function in
 // the library the corresponding argument is known to have at least n elements (a length check in the caller).
-func (g *guardCtx) callersLenAtLeast(a ast.Expr, n int64, stack []ast.Node) bool {
+func (g *guardCtx) callersLenAtLeast(a ast.Expr, n int64, stack []ast.Node, fd *ast.FuncDecl) bool {
 	id, ok := unparen(a).(*ast.Ident)
 	if !ok {
 		return false
 	}
-	var fd *ast.FuncDecl
 	for _, nd := range stack {
-		if f, ok := nd.(*ast.FuncDecl); ok {
+		if f, ok := nd.(*ast.FuncDecl); ok && fd == nil {
 			fd = f
 		}
 	}
@@ -427,6 +428,9 @@ func (g *guardCtx) callersLenAtLeast(a ast.Expr, n int64, stack []ast.Node) bool
 				})
 			}
 		}
+	}
+	if os.Getenv("GOEXT_DEBUG") != "" {
+		fmt.Fprintf(os.Stderr, "callersLenAtLeast %s param %d need %d: calls=%d allOK=%v\n", fd.Name.Name, k, n, calls, allOK)
 	}
 	return calls > 0 && allOK
 }
@@ -502,14 +506,14 @@ func (g *guardCtx) guardOfIndex(x *ast.IndexExpr, stack []ast.Node, fd *ast.Func
 	if c, ok := g.constInt(x.Index); ok && c >= 0 && g.lenAtLeast(a, c+1, x, stack) {
 		return "len-checked"
 	}
-	if c, ok := g.constInt(x.Index); ok && c >= 0 && g.callersLenAtLeast(x.X, c+1, stack) {
+	if c, ok := g.constInt(x.Index); ok && c >= 0 && g.callersLenAtLeast(x.X, c+1, stack, fd) {
 		return "len-checked-by-callers"
 	}
 	return ""
 }
 
 // guardOfSlice: why `a[lo:hi]` cannot fault, or "" (constant bounds against a checked length only).
-func (g *guardCtx) guardOfSlice(x *ast.SliceExpr, stack []ast.Node) string {
+func (g *guardCtx) guardOfSlice(x *ast.SliceExpr, stack []ast.Node, fd *ast.FuncDecl) string {
 	if x.Slice3 {
 		return ""
 	}
@@ -540,7 +544,7 @@ func (g *guardCtx) guardOfSlice(x *ast.SliceExpr, stack []ast.Node) string {
 	if g.lenAtLeast(a, need, x, stack) {
 		return "len-checked"
 	}
-	if g.callersLenAtLeast(x.X, need, stack) {
+	if g.callersLenAtLeast(x.X, need, stack, fd) {
 		return "len-checked-by-callers"
 	}
 	return ""
